@@ -104,6 +104,26 @@ func (x *Exec) callFunc(p *Path, callee *ssa.Function, binds []SV, args []SV, re
 		return true
 	}
 	ct := x.cf.ByFunc[key]
+	if ct != nil && len(ct.Ensures) == 0 && callee.Signature.Recv() != nil {
+		for fl := range ct.Flags {
+			if strings.HasPrefix(fl, "implements=") {
+				if ic := x.cf.ByFunc[fl[len("implements="):]]; ic != nil {
+					vars := map[string]SV{"self": x.makeInterface(p, callee.Params[0].Type(), args[0])}
+					for i, prm := range callee.Params {
+						vars[prm.Name()] = args[i]
+					}
+					r, ok := x.applyContract(p, ic, vars, callee.Signature.Results(), x.siteName(p, key), in, work)
+					if !ok {
+						return false
+					}
+					if res != nil {
+						x.bind(p, res, r)
+					}
+					return true
+				}
+			}
+		}
+	}
 	if ct != nil && !ct.Flags["inline"] {
 		vars := map[string]SV{}
 		for i, prm := range callee.Params {
@@ -493,6 +513,13 @@ func (x *Exec) applyContract(p *Path, ct *Contract, vars map[string]SV, results 
 			p.assume(ax)
 		}
 		x.seedFrame(p, &cfs, pre, post)
+		if !cfs.all && len(cfs.lists)+len(cfs.objs)+len(cfs.arrs)+len(cfs.maps) == 0 {
+			p.assume(fmt.Sprintf("(ext %s %s)", pre, post)) // nothing that existed was modified
+			x.extStep(p, post, "ghost")
+		} else {
+			p.anchors = nil
+		}
+		x.addAnchorAt(p, post)
 		p.assume(freshOwn(pre, post))
 		if !ct.Flags["callbacks"] {
 			p.assume(fmt.Sprintf("(= (TrLen %s) (TrLen %s))", post, pre))
